@@ -207,7 +207,7 @@ CLAIMED = {
             'through the real code on both sides (real serializers, codec, key derivation calls): both ends hold the same 16-byte key '
             'term and the same token, the challenge response is sealed under that key, exactly one connect event. Promotion of a temp '
             'connection is proven equivalent to: CHALLENGE_RESP type, sealed under this connection\'s key, carrying the issued token; '
-            'other pending handshakes untouched; connect at most once. Two hellos delivered in one connect attempt (forged then forged or genuine, same or new datagram) are judged independently: a refused hello does not weaken the pin. A keyless server-side connection fed one clear-text attacker datagram (any header type, 1-2 inner messages of any type: hello of any protocol version, challenge response with any token, junk) is never promoted, raises no connect event, and starts a key exchange only from the single client hello. The pinned key is never replaced by anything a hello carries (asserted for every combination), and survives a reconnect of the same UdpClient: a hello signed by a foreign key is still refused afterwards (L2.5).',
+            'other pending handshakes untouched; connect at most once. Two hellos delivered in one connect attempt (forged then forged or genuine, same or new datagram) are judged independently: a refused hello does not weaken the pin. A keyless server-side connection fed one clear-text attacker datagram (any header type, 1-2 inner messages of any type: hello of any protocol version, challenge response with any token, junk) is never promoted, raises no connect event, and starts a key exchange only from the single client hello. The pinned key is never replaced by anything a hello carries (asserted for every combination), and survives a reconnect of the same UdpClient: a hello signed by a foreign key is still refused afterwards (L2.5). After the handshake a client that holds the session key does not process a clear-text SERVER_HELLO-typed datagram again (free header, arbitrary body, valid CRC: not accepted, key / token / status unchanged - L2.6, the harness of C01 L1.1).',
             'Assumed, not shown: hardness of ECDSA/ECDH/HKDF/AES-GCM (ideal models, listed in the evidence); distinct keys have distinct '
             'encodings. The TOFU mode (no pinned key) is excluded by the statement. Reordering/duplication/loss of handshake datagrams '
             'at the server gate is part of C10.',
@@ -220,7 +220,7 @@ CLAIMED = {
             'crossed with handler exceptions in connect/message/disconnect/update and shutdown after tick 4 or 8. On every path: no '
             'exception leaves the loop; per client object connect once, then only its own messages (each at most once), then '
             'disconnect once; starting first, shutdown last; pool empty after shutdown; connect only for a client that completed the '
-            'handshake; a client that sent DISCONNECT leaves the pool within a few ticks, not only at shutdown; B unaffected by A. A peer that holds the session key but sends sealed application data (typed APP or CHALLENGE_RESP, one or two messages) instead of the challenge response, and keeps talking, causes no handler event at all and never enters the connection pool (L10.5). get_token is decided for every RNG outcome against arbitrary tokens in both pools; the '
+            'handshake; a client that sent DISCONNECT leaves the pool within a few ticks, not only at shutdown; B unaffected by A. A peer that holds the session key but sends sealed application data (typed APP or CHALLENGE_RESP, one or two messages) instead of the challenge response, and keeps talking, causes no handler event at all and never enters the connection pool (L10.5). A rejected datagram (a replay of something already received, at any offset) does not refresh the liveness clock the silence sweep reads, so replays cannot postpone the disconnect of a dead client (L10.6, the harness of C04 L4.1). get_token is decided for every RNG outcome against arbitrary tokens in both pools; the '
             'reactor-thread entry points are proven never to reach a handler method.',
             'Threads: the engine is single-threaded; "all handler events on one thread" is replaced by the containment lemma (entry points '
             'never call the handler; every other call site is inside run()). Trusted: sx engine, ideal crypto, inert threading/reactor '
